@@ -7,6 +7,7 @@ from py_gql.exc import GraphQLSyntaxError
 from py_gql.lang import ast as A
 from py_gql.lang import parse, parse_value
 from py_gql.lang.printer import ASTPrinter
+from py_gql.lang import printer as _printer_mod
 
 from .. import gen_docs_full as G
 from .. import gen_exec, ser
@@ -124,6 +125,19 @@ DUP_QUERIES = [
 ]
 
 
+HIST_INDENTS = [3, 5, 7, "\t\t"]
+HIST_DOCS = [
+    '"""a type""" type A implements I @d { a(x: Int = 1): Int } "a scalar" scalar S { a }',
+    '"""\n  two\n    lines\n""" interface I { f: [S!]! } "e" enum E { V } """u""" union U = A | B '
+    '"i" input In { a: Int = 1 } "dd" directive @d(a: Int) on FIELD query Q { f }',
+    'query Q($v: Int = 1) { a(x: $v) @d ... on T { b } }',
+]
+
+
+def hcall(api, text, indent, incl):
+    return {"api": api, "text": text, "indent": indent, "incl": incl}
+
+
 def corpus():
     out = []
     witnesses = [
@@ -155,6 +169,20 @@ def corpus():
     for s in G.PLAIN_STRINGS:
         out.append({"kind": "quoted", "value": s, "indent": 2})
         out.append({"kind": "rawblock", "value": s, "indent": 2})
+    # histories (seeded C03-f): printing is a pure function of (indent, include_descriptions, doc), so a
+    # sequence of print_ast / ASTPrinter calls in one process must give the model's text call by call.
+    # Each history uses one indent with BOTH flag values on documents that carry definition-level
+    # descriptions: whichever call of the process came first, a printer that remembers a flag per indent
+    # gets the other one wrong.  Unusual indents (3, 5, 7, two tabs) are used by histories only.
+    for ind in HIST_INDENTS + [0, 2, 4, "\t"]:
+        for first in (False, True):
+            d1, d2 = HIST_DOCS[0], HIST_DOCS[1]
+            out.append({"kind": "history", "calls": [
+                hcall("print_ast", d1, ind, first), hcall("print_ast", d1, ind, not first),
+                hcall("print_ast", d2, ind, not first), hcall("ASTPrinter", d1, ind, first),
+                hcall("print_ast", d2, ind, first), hcall("ASTPrinter", d2, ind, not first)]})
+    out.append({"kind": "history", "calls": [hcall("print_ast_default", d, 2, True) for d in HIST_DOCS]
+                + [hcall("print_ast", HIST_DOCS[0], 2, False), hcall("print_ast_default", HIST_DOCS[0], 2, True)]})
     # duplicate-definition family (seeded C03-e): the same anonymous query / the same definition at
     # several positions, after body-less type-system definitions and extensions of every kind
     for b in BODYLESS:
@@ -194,6 +222,16 @@ def generate(rng, tier):
             cases.append(doc_case(text, i))
         if rng.random() < 0.3:
             cases.append(doc_case(text, rng.choice(INDENTS), incl=False))
+    for _ in range(30 if tier == "quick" else 400):
+        # random histories: 3-6 calls over 1-2 documents with descriptions, flags and APIs varied
+        docs = [rng.choice(HIST_DOCS + G.KITCHEN[:6]), G.gen_document(rng, strings="some")]
+        inds = rng.sample(HIST_INDENTS + INDENTS, 2)
+        calls = [hcall(rng.choice(["print_ast", "print_ast", "ASTPrinter"]), rng.choice(docs), rng.choice(inds),
+                       rng.random() < 0.5) for _ in range(rng.randint(3, 6))]
+        i0 = rng.choice(inds)
+        calls += [hcall("print_ast", docs[0], i0, False), hcall("print_ast", docs[0], i0, True)]
+        rng.shuffle(calls)
+        cases.append({"kind": "history", "calls": calls})
     for _ in range(80 if tier == "quick" else 1500):
         s1 = G.random_string(rng)
         q = G._quote(s1)
@@ -222,8 +260,27 @@ def _value_node(case):
     return A.StringValue(value=case["value"], block=True)
 
 
+def _run_call(c):
+    doc = parse(c["text"], **G.PARSE_KW)
+    if c["api"] == "print_ast":
+        return _printer_mod.print_ast(doc, indent=c["indent"], include_descriptions=c["incl"])
+    if c["api"] == "print_ast_default":
+        return _printer_mod.print_ast(doc)
+    return ASTPrinter(indent=c["indent"], include_descriptions=c["incl"])(doc)
+
+
 def run_impl(case):
     k = case["kind"]
+    if k == "history":
+        texts = []
+        for c in case["calls"]:
+            try:
+                texts.append(_run_call(c))
+            except GraphQLSyntaxError:
+                return {"rejected": True}
+            except Exception as e:  # noqa
+                texts.append(None)
+        return {"texts": texts}
     if k == "doc":
         try:
             doc = parse(case["text"], **G.PARSE_KW)
@@ -285,7 +342,15 @@ def run_impl(case):
     return obs
 
 
+def _cind(i):
+    return ser.cstr(ind_str(i)) if ind_str(i) else "[]"
+
+
 def _cin(case):
+    if case["kind"] == "history":
+        return "(CHist [%s])" % "; ".join(
+            "(%s, %s, %s)" % (ser.cdoc(parse(c["text"], **G.PARSE_KW)), _cind(c["indent"]), ser.cbool(c["incl"]))
+            for c in case["calls"])
     if case["kind"] == "doc":
         doc = parse(case["text"], **G.PARSE_KW)
         return "(CDoc %s %s %s)" % (ser.cdoc(doc), ser.cstr(ind_str(case["indent"])) if ind_str(case["indent"]) else "[]",
@@ -298,12 +363,17 @@ def to_coq(case, obs):
     if obs.get("rejected"):
         # not a parser-accepted document: nothing to compare; an always-agreeing dummy
         return "(CVal (VNull NL) [], OText (s \"null\"))"
+    if case["kind"] == "history":
+        return "(%s, OTexts [%s])" % (_cin(case), "; ".join(
+            "None" if t is None else "Some %s" % (ser.cstr(t) if t else "[]") for t in obs["texts"]))
     if "raised" in obs:
         return "(%s, ORaised)" % _cin(case)
     return "(%s, OText %s)" % (_cin(case), ser.cstr(obs["text"]) if obs["text"] else "[]")
 
 
 def show_expr(case, obs):
+    if case["kind"] == "history":
+        return "model_hist %s" % _cin(case)[len("(CHist "):-1]
     return "model_C03 %s" % _cin(case)
 
 
@@ -331,6 +401,19 @@ def direct_checks(case, obs):
         return out
     if "raised" in obs:
         return [("printing-never-raises: %s" % obs["raised"], None)]
+    if case["kind"] == "history":
+        if any(t is None for t in obs["texts"]):
+            out.append(("printing-never-raises", None))
+        # model-free: two calls of the history with the same (document, indent, flag) print the same text
+        seen = {}
+        for c, t in zip(case["calls"], obs["texts"]):
+            key = (c["text"], repr(c["indent"] if c["api"] != "print_ast_default" else 2),
+                   c["incl"] if c["api"] != "print_ast_default" else True)
+            if key in seen and seen[key] != t:
+                out.append(("printing-is-a-function-of-its-arguments", None))
+                break
+            seen.setdefault(key, t)
+        return out
     if not obs.get("again", True):
         out.append(("printing-is-deterministic", None))
     nl = obs.get("noloc", "same")
@@ -349,6 +432,17 @@ def direct_checks(case, obs):
 
 
 def shrink(case, is_bad):
+    if case["kind"] == "history":
+        cs = case["calls"]
+        for i in range(len(cs)):
+            for j in range(i + 1, len(cs)):
+                cand = {"kind": "history", "calls": [cs[i], cs[j]]}
+                try:
+                    if is_bad(cand):
+                        return cand
+                except Exception:  # noqa
+                    continue
+        return case
     if case["kind"] != "doc":
         return case
     try:
@@ -371,7 +465,7 @@ def shrink(case, is_bad):
 def extra_evidence(cases, obss):
     kinds = collections.Counter(c["kind"] for c in cases)
     rp = collections.Counter(o.get("reparse", "n/a") for o in obss)
-    inds = collections.Counter(repr(c["indent"]) for c in cases)
+    inds = collections.Counter(repr(c.get("indent")) for c in cases)
     classes = collections.Counter()
     for c in cases[:400]:
         if c["kind"] == "doc":
@@ -384,7 +478,8 @@ def extra_evidence(cases, obss):
                              "indents": dict(inds), "rejected_by_parser": sum(1 for o in obss if o.get("rejected")),
                              "node_classes_seen_first_400": len(classes),
                              "block_strings": sum(1 for c in cases if '"""' in c.get("text", "")),
-                             "descriptions_off": sum(1 for c in cases if c.get("incl") is False)}}
+                             "descriptions_off": sum(1 for c in cases if c.get("incl") is False),
+                             "history_calls": sum(len(c["calls"]) for c in cases if c["kind"] == "history")}}
 
 
 def _walk(node, out=None):
